@@ -311,6 +311,21 @@ func (vals *ValidatorSet) updateTotalVotingPower() {
 	vals.totalVotingPower = sum
 }
 
+// checkedTotalVotingPower computes the sum of the voting powers like
+// updateTotalVotingPower, but returns an error instead of panicking when it
+// exceeds MaxTotalVotingPower. For validator sets built from untrusted data.
+func (vals *ValidatorSet) checkedTotalVotingPower() (int64, error) {
+	sum := int64(0)
+	for _, val := range vals.Validators {
+		// mind overflow
+		sum = safeAddClip(sum, val.VotingPower)
+		if sum > MaxTotalVotingPower {
+			return 0, fmt.Errorf("total voting power of validator set exceeds the maximum %v", MaxTotalVotingPower)
+		}
+	}
+	return sum, nil
+}
+
 // TotalVotingPower returns the sum of the voting powers of all validators.
 // It recomputes the total voting power if required.
 func (vals *ValidatorSet) TotalVotingPower() int64 {
@@ -989,7 +1004,13 @@ func ValidatorSetFromProto(vp *tmproto.ValidatorSet) (*ValidatorSet, error) {
 	// power hence we need to recompute it.
 	// FIXME: We should look to remove TotalVotingPower from proto or add it in the validators hash
 	// so we don't have to do this
-	vals.TotalVotingPower()
+	// These are untrusted bytes: TotalVotingPower() panics when the sum exceeds
+	// MaxTotalVotingPower, so the sum is checked here and reported as an error.
+	total, err := vals.checkedTotalVotingPower()
+	if err != nil {
+		return nil, err
+	}
+	vals.totalVotingPower = total
 
 	return vals, vals.ValidateBasic()
 }
@@ -1012,8 +1033,14 @@ func ValidatorSetFromExistingValidators(valz []*Validator) (*ValidatorSet, error
 	vals := &ValidatorSet{
 		Validators: valz,
 	}
+	// the validators may come from an untrusted source (e.g. an RPC provider): report a
+	// total above MaxTotalVotingPower as an error instead of panicking
+	total, err := vals.checkedTotalVotingPower()
+	if err != nil {
+		return nil, fmt.Errorf("can't create validator set: %w", err)
+	}
 	vals.Proposer = vals.findPreviousProposer()
-	vals.updateTotalVotingPower()
+	vals.totalVotingPower = total
 	sort.Sort(ValidatorsByVotingPower(vals.Validators))
 	return vals, nil
 }
